@@ -8,6 +8,7 @@ import (
 	"math/rand"
 	"sort"
 
+	"github.com/tikv/client-go/v2/kv"
 	"github.com/tikv/client-go/v2/verifsim/simkit"
 )
 
@@ -49,6 +50,8 @@ type TxnProg struct {
 	// AssertLevel ("" | fast | strict) and Asserts (key -> exist | notexist | unknown): the assertion level of the
 	// transaction and the assertion flags put on buffered keys right before Commit (what an SQL layer derives from
 	// what it read). An assertion that does not hold makes Commit fail with a definite error, nothing else.
+	// Replica: replica-read type of the transaction's own snapshot (see ReadPlan.Replica)
+	Replica     string            `json:"replica,omitempty"`
 	AssertLevel string            `json:"assert_level,omitempty"`
 	Asserts     map[string]string `json:"asserts,omitempty"`
 }
@@ -174,6 +177,12 @@ type ReadPlan struct {
 	Batch     int   `json:"batch"` // scan batch size
 	KeyOnly   bool  `json:"key_only,omitempty"`
 	Unbounded bool  `json:"unbounded_reverse,omitempty"` // include reverse scans from the end of the key space (known finding F1)
+	// Replica ("" | follower | mixed | learner | prefer-leader): the replica-read type of the reader's snapshots;
+	// Stale: they are staleness-read-only snapshots. The reference backend then serves flagged reads on followers and
+	// answers every NotReadyEvery-th stale read with DataIsNotReady; the repository's mock bounces them to the leader.
+	Replica       string `json:"replica,omitempty"`
+	Stale         bool   `json:"stale,omitempty"`
+	NotReadyEvery int    `json:"not_ready_every,omitempty"`
 }
 
 var keyPool = []string{"a", "b", "c", "d", "e", "f"}
@@ -433,6 +442,45 @@ func addAsserts(seed uint64, sc *Scenario) {
 			p.Asserts[k] = pick(r, []string{"exist", "exist", "notexist", "notexist", "unknown"})
 		}
 	}
+}
+
+var replicaKinds = []string{"follower", "mixed", "learner", "prefer-leader", "follower", "mixed"}
+
+// addReplicaReads decorates a generated scenario (own random stream): in a third of the runs the snapshot readers and
+// about half of the transactions read through a replica-read type, some readers with staleness-read-only snapshots.
+func addReplicaReads(seed uint64, sc *Scenario) {
+	r := simkit.Rand(seed, "replica-reads")
+	if r.Intn(3) != 0 {
+		return
+	}
+	if sc.Reads != nil {
+		if r.Intn(4) != 0 {
+			sc.Reads.Replica = pick(r, replicaKinds)
+		}
+		if r.Intn(3) == 0 {
+			sc.Reads.Stale = true
+			sc.Reads.NotReadyEvery = []int{0, 2, 3, 7}[r.Intn(4)]
+		}
+	}
+	for i := range sc.Txns {
+		if r.Intn(2) == 0 {
+			sc.Txns[i].Replica = pick(r, replicaKinds)
+		}
+	}
+}
+
+func replicaType(kind string) (kv.ReplicaReadType, bool) {
+	switch kind {
+	case "follower":
+		return kv.ReplicaReadFollower, true
+	case "mixed":
+		return kv.ReplicaReadMixed, true
+	case "learner":
+		return kv.ReplicaReadLearner, true
+	case "prefer-leader":
+		return kv.ReplicaReadPreferLeader, true
+	}
+	return kv.ReplicaReadLeader, false
 }
 
 func genLayout(r *rand.Rand) (stores int, splits []string) {
